@@ -385,6 +385,42 @@ pub fn check_static_sinks(c: &StaticCase, acc: &mut Acc, record: bool) -> Verdic
     }
     let a = |t: Ty| Arc::new(t);
     let (t, b) = (c.text.clone(), c.bytes.clone());
+    if c.kind >= 128 {
+        // the table of concrete container types (vcat::statics), with a generated value carried in `text` as JSON
+        let table = vcat::statics::static_sink_types();
+        let (name, ty, f) = &table[(c.kind as usize - 128) % table.len()];
+        let val: Val = match serde_json::from_str(&c.text) {
+            Ok(v) => v,
+            Err(_) => return Verdict::Skip,
+        };
+        if record {
+            acc.case(&format!("sinks: {name} at its static type"), hash_json(c), true);
+        }
+        let outs = match crate::run::guarded(|| f(&val)) {
+            Ok(o) => o,
+            Err(p) => return Verdict::Fail(format!("{name} = {}: panic {p}", val.brief())),
+        };
+        let hashy = ty.any(&|t| matches!(t, Ty::HashSet(_) | Ty::HashMap(..)));
+        let want = vmodel::refcodec::ref_encode(ty, &val).map(|f| f.bytes);
+        for (sink, out) in &outs[1..] {
+            let same = match (&outs[0].1, out) {
+                (Ok(a), Ok(b)) if sink.starts_with("SizeCalculator") => a.len() == b.len(),
+                (Ok(a), Ok(b)) => a == b || hashy && a.len() == b.len(),
+                (Err(a), Err(b)) => a == b,
+                _ => false,
+            };
+            if !same {
+                return Verdict::Fail(format!("{name} = {}: {sink} gives {:?} but {} gives {:?}", val.brief(), out.as_ref().map(|b| hex(b)), outs[0].0, outs[0].1.as_ref().map(|b| hex(b))));
+            }
+        }
+        let sets = ty.any(&|t| matches!(t, Ty::HashSet(_) | Ty::HashMap(..) | Ty::BTreeMap(..) | Ty::BTreeSet(_)));
+        if let (Ok(w), Ok(b), false) = (&want, &outs[0].1, sets) {
+            if w != b {
+                return Verdict::Fail(format!("{name} = {} encodes as {}; the format says {}", val.brief(), hex(b), hex(w)));
+            }
+        }
+        return Verdict::Pass;
+    }
     let (name, ty, val, outs) = match c.kind % 12 {
         0 => ("String", Ty::Str, Val::str(&t), through(&t)),
         1 => ("Vec<u8>", Ty::Bytes, Val::Bytes(b.clone()), through(&b)),
@@ -495,6 +531,17 @@ pub fn run(cx: &Cx) -> PropResult {
         let strat = (any::<u8>(), prop::sample::select(vec!["", "", "a", "\u{e9}", "two words", "\u{1f600}"]), prop_oneof![3 => Just(vec![]), 2 => proptest::collection::vec(any::<u8>(), 0..4), 1 => proptest::collection::vec(any::<u8>(), 120..140)], prop_oneof![Just(0u32), Just(127), Just(128), any::<u32>()])
             .prop_map(|(kind, text, bytes, n)| StaticCase { kind, text: text.to_string(), bytes, n });
         if drive(crate::run::tag_seed(derive_seed(cx.seed, cx.prop, shard as u64, 5), 5), &strat, cx.n(4_000, 100_000), acc, &|c: &StaticCase| to_json(&Case::Static(c.clone())), &mut |c, a, r| check_static_sinks(c, a, r)) {
+            return;
+        }
+        // every concrete type of the static table through every sink
+        let table = vcat::statics::static_sink_types();
+        let strat = (0..table.len())
+            .prop_flat_map(move |i| {
+                let cfg = ValCfg { max_len: 6, long: false, non_bmp: i % 2 == 0, ..ValCfg::default() };
+                vmodel::gen::val_strategy(&table[i].1, cfg).prop_map(move |v| StaticCase { kind: 128 + i as u8, text: serde_json::to_string(&v).unwrap_or_default(), bytes: vec![], n: 0 })
+            })
+            .boxed();
+        if drive(crate::run::tag_seed(derive_seed(cx.seed, cx.prop, shard as u64, 6), 6), &strat, cx.n(6_000, 150_000), acc, &|c: &StaticCase| to_json(&Case::Static(c.clone())), &mut |c, a, r| check_static_sinks(c, a, r)) {
             return;
         }
         let strat = ops_strategy();
